@@ -1,16 +1,95 @@
 (* C04 — Every issued revision is resolved: reads never overtake a write and never stall.
-   Property theorems only. *)
-From KB Require Import Model.RevSys Proofs.RevSys.
+   Property theorems only: each is closed by `exact <lemma>` and followed by Print Assumptions.
+
+   reach cidx0 d0 store s  :=  wf_store d0 store /\ exists ls, s = krun cidx0 ls (kinit d0 store)
+   i.e. s is the state after an arbitrary list of labels (any interleaving of any number of client
+   threads running Create / Update / Delete and of asynchronous rewrites, any request inputs, any
+   environment choice per engine call, sequencer iterations anywhere) from any well-formed store. *)
+From KB Require Import Model.RevSys Model.KeySys Model.C01Cases Model.C04Cases.
+From KB Require Import Proofs.RevSys Proofs.KeySys Proofs.KeySysLog Proofs.KeySysProps.
 Local Open Scope N_scope.
 
-(* RevSys level: any number of threads allocating and reporting in any order, the sequencer's
-   five atomic actions interleaved anywhere *)
+(* ----- RevSys: threads allocate and report in any order; tso.Commit is three atomic steps ----- *)
+
 Theorem C04_rev_no_overtake : forall ls d0 t r,
   In r (held (rrun ls (rinit d0)) t) -> committed (rrun ls (rinit d0)) < r.
-Proof. intros ls d0 t r. apply held_above_committed, rinv_reachable. Qed.
+Proof. exact (fun ls d0 t r => held_above_committed _ t r (rinv_reachable ls d0)). Qed.
 Print Assumptions C04_rev_no_overtake.
 
 Theorem C04_rev_quiescent_caught_up : forall ls d0,
   rquiescent (rrun ls (rinit d0)) -> committed (rrun ls (rinit d0)) = dealt (rrun ls (rinit d0)).
-Proof. intros ls d0. apply quiescent_caught_up, rinv_reachable. Qed.
+Proof. exact (fun ls d0 => quiescent_caught_up _ (rinv_reachable ls d0)). Qed.
 Print Assumptions C04_rev_quiescent_caught_up.
+
+(* the conditional CAS of tso.Commit never changes the allocation counter *)
+Theorem C04_rev_commit_keeps_dealt : forall ls d0 l,
+  dealt (rstep (rrun ls (rinit d0)) l) =
+  match l with RDeal _ => if rpanic (rrun ls (rinit d0)) then dealt (rrun ls (rinit d0)) else dealt (rrun ls (rinit d0)) + 1
+          | _ => dealt (rrun ls (rinit d0)) end.
+Proof. exact (fun ls d0 l => dealt_step _ l (rinv_reachable ls d0)). Qed.
+Print Assumptions C04_rev_commit_keeps_dealt.
+
+(* ----- KeySys: the request programs ----- *)
+
+(* every allocated revision that has not been reported yet (in particular: whose owner has not
+   finished its engine commit) is above the revision reads are served at *)
+Theorem C04_no_overtake : forall cidx0 d0 store s, reach cidx0 d0 store s ->
+  forall t r, pc_rev (thr s t) = Some r -> committed (rs s) < r.
+Proof. exact k_no_overtake. Qed.
+Print Assumptions C04_no_overtake.
+
+(* every path of every request kind, for every input and environment choice: what a thread has
+   allocated and not reported is exactly the revision its program counter still carries to notify *)
+Theorem C04_paths_report : forall cidx0 d0 store s, reach cidx0 d0 store s ->
+  forall t, held (rs s) t = held_of (thr s t).
+Proof. exact k_paths_report. Qed.
+Print Assumptions C04_paths_report.
+
+(* … so nothing is unreported when the response is handed out *)
+Theorem C04_paths_report_at_return : forall cidx0 d0 store s, reach cidx0 d0 store s ->
+  forall t, enabled s (LReturn t) = true -> held (rs s) t = [].
+Proof. exact k_return_resolved. Qed.
+Print Assumptions C04_paths_report_at_return.
+
+(* the same on the ghost log: at every EReturn entry, every EDealt of that thread has its ENotified *)
+Theorem C04_paths_report_log : forall cidx0 d0 store s, reach cidx0 d0 store s -> returns_clean (log s).
+Proof. exact k_returns_clean. Qed.
+Print Assumptions C04_paths_report_log.
+
+(* no thread in flight, the sequencer has nothing to take, no buffer-full panic: reads have caught up *)
+Theorem C04_quiescent_caught_up : forall cidx0 d0 store s, reach cidx0 d0 store s ->
+  (forall t, pc_rev (thr s t) = None) -> enabled s LSeqTake = false -> rpanic (rs s) = false ->
+  committed (rs s) = dealt (rs s).
+Proof. exact k_quiescent. Qed.
+Print Assumptions C04_quiescent_caught_up.
+
+Theorem C04_seq_take : forall cidx0 d0 store s, reach cidx0 d0 store s -> enabled s LSeqTake = true ->
+  let s' := kstep cidx0 s LSeqTake in
+  dealt (rs s') = dealt (rs s) /\ committed (rs s') = committed (rs s) + 1.
+Proof. exact k_seq_take. Qed.
+Print Assumptions C04_seq_take.
+
+(* ----- non-vacuity ----- *)
+
+(* a reachable state with a write held before its commit while a later one is already readable *)
+Example C04_ex_reach : reach true 10 ex_store ex_state.
+Proof. exact ex_reach. Qed.
+Example C04_ex_held : pc_rev (thr ex_state 2) = Some 13 /\ held (rs ex_state) 2 = [13] /\ committed (rs ex_state) = 12
+  /\ enabled ex_state (LReturn 1) = true /\ held (rs ex_state) 1 = [].
+Proof. vm_compute. repeat split. Qed.
+(* drift path (fix 83355f7): Update with expected revision 2^40 allocates 11, reports it and only then answers *)
+Example C04_ex_drift :
+  let s := krun true [LInvoke 0 (RqUpdate 0 [9] 1099511627776); LDeal 0] (kinit 10 ex_store) in
+  thr s 0 = PNotify WUpdate 0 11 ROther ([], 0) /\ held (rs s) 0 = [11].
+Proof. vm_compute. split; reflexivity. Qed.
+Example C04_ex_quiescent :
+  let s := krun true [LInvoke 0 (RqDelete 2 18446744073709551615); LEngine 0 EnvOk; LDeal 0; LNotify 0; LReturn 0; LSeqTake]
+                (kinit 10 ex_store) in
+  pc_rev (thr s 0) = None /\ pc_rev (thr s 1) = None /\ enabled s LSeqTake = false /\ rpanic (rs s) = false
+  /\ committed (rs s) = 11 /\ dealt (rs s) = 11.
+Proof. vm_compute. repeat split. Qed.
+(* the buffer-full panic is an explicit outcome: 100000 unresolved revisions ahead of the read revision *)
+Example C04_ex_panic :
+  rpanic (r_notify {| dealt := 100010; committed := 10; slots := fun _ => None; seq := SqIdle;
+                      held := fun _ => [100010]; rlog := []; rpanic := false |} 0 100010 true) = true.
+Proof. vm_compute. reflexivity. Qed.
